@@ -11,6 +11,7 @@
 #include "verif.h"
 #include "sim.h"
 #include "vsched.h"
+#include <poll.h>
 #include <event2/event.h>
 #include <event2/event_struct.h>
 #include <event2/buffer.h>
@@ -20,6 +21,7 @@ extern "C" {
 #include "event-internal.h"
 }
 
+extern "C" int __real_poll(struct pollfd *, nfds_t, int);
 namespace {
 enum { NA = 2, ND = 2 };
 enum OpK { O_END, O_ACTIVE_A, O_ADD_D, O_DEL_D, O_DELBLOCK_D, O_DELNOBLOCK_D, O_ACTIVE_D, O_BEV_WRITE, O_BUF_ADD, O_YIELD, O__N };
@@ -31,7 +33,7 @@ struct World {
   struct bufferevent *pa, *pb; std::string sent, recv;
   struct evbuffer *shared; int added[3];
   std::vector<Op> script[3];
-  bool exit_requested = false, use_break = false, loop_done = false; int loop_ret = -2;
+  bool exit_requested = false, use_break = false, loop_done = false, loop_entered = false, workers_done = false; int loop_ret = -2;
   uint64_t idle_sleeps = 0, cross_calls = 0, del_during_cb = 0;
   uint64_t last_sw = 0;
 };
@@ -51,13 +53,17 @@ void pb_event(struct bufferevent *, short, void *) {}
 
 int64_t wait_hook(const struct sim_wait_info *wi, void *) {
   World &w = *W;
+  w.loop_entered = true;
   if (wi->nready > 0) return 20;
-  // nothing ready: a real loop would now block.  Let the other threads run until they all block or finish.
-  uint64_t sw0 = sched_switches();
+  // nothing ready: a real loop would now block.  Let the other threads run until they all block or finish; the loop
+  // wakes up early only if that made one of its fds ready (probed with poll(2) on the epoll fd, which does not
+  // consume edge-triggered readiness) -- NOT merely because somebody else ran.
   sched_run_others();
-  if (sched_switches() != sw0) return 0;          // somebody ran: poll again before deciding to sleep
+  { struct pollfd p = {wi->epfd, POLLIN, 0}; if (__real_poll(&p, 1, 0) > 0 && (p.revents & POLLIN)) return 0; }
+  if (wi->timeout_us == 0) return 0;               // a zero-timeout poll (callbacks are active): the loop is not going to sleep
   // truly idle -> about to sleep for the requested timeout
   w.idle_sleeps++;
+  CHECK(sched_cond_waiters() == 0, "C09/cond-waiter-never-woken", "the loop is idle (no callback running) but %d thread(s) still wait on a condition for a callback to finish", sched_cond_waiters());
   int64_t now = sim_now_us();
   for (int i = 0; i < NA; i++) CHECK(!w.want[i], "C09/lost-wakeup-activation", "loop goes to sleep (timeout %lld us) while a cross-thread event_active(A%d) is still unserved", (long long)wi->timeout_us, i);
   if (!w.use_break) CHECK(!w.exit_requested, "C09/lost-wakeup-loopexit", "loop goes to sleep (timeout %lld us) although loopexit was called from another thread", (long long)wi->timeout_us);
@@ -67,10 +73,12 @@ int64_t wait_hook(const struct sim_wait_info *wi, void *) {
   for (auto *e : evs) { struct timeval tv; if (e && event_pending(e, EV_TIMEOUT, &tv) && !(e->ev_flags & EVLIST_ACTIVE)) { int64_t d = (int64_t)tv.tv_sec * 1000000 + tv.tv_usec - SIM_WALL_OFFSET_US; if (earliest < 0 || d < earliest) earliest = d; } }
   if (wi->timeout_us < 0) {
     CHECK(earliest < 0, "C09/lost-wakeup-timer", "loop sleeps forever although a timer added from another thread is pending");
-    if (sched_unfinished_others() == 0 || true) { event_base_loopbreak(w.base); return 0; }
+    if (w.workers_done) sched_unpark(0);
+    event_base_loopbreak(w.base); return 0;
   }
   if (earliest >= 0) { int64_t maxwait = earliest > now ? earliest - now : 0;
     CHECK(wi->timeout_us <= maxwait + 1000, "C09/lost-wakeup-timer", "loop sleeps %lld us although a timer (added from another thread) is due in %lld us", (long long)wi->timeout_us, (long long)maxwait); }
+  if (w.workers_done) sched_unpark(0);
   return wi->timeout_us;
 }
 
@@ -132,12 +140,16 @@ extern "C" int LLVMFuzzerTestOneInput(const uint8_t *data, size_t size) {
   int L = sched_spawn(loop_thread, nullptr);
   int w1 = sched_spawn(worker, (void *)(intptr_t)1), w2 = sched_spawn(worker, (void *)(intptr_t)2);
   sched_wait_thread(w1); sched_wait_thread(w2);
+  // loopbreak/loopexit are only claimed to work on a RUNNING loop (event_base_loop resets both flags when it starts), and
+  // the controller must not mask a lost timer wake-up by notifying the loop itself right away: it parks until the loop
+  // has gone to sleep once with all workers finished.
+  w.workers_done = true; sched_park();
   w.exit_requested = true;
   if (w.use_break) event_base_loopbreak(w.base); else event_base_loopexit(w.base, nullptr);
   sched_wait_thread(L);
   w.exit_requested = false;
   sched_join_all();
-  TR("loop returned %d; switches=%llu idle_sleeps=%llu del_during_cb=%llu A=%d/%d D=%d/%d", w.loop_ret, (unsigned long long)sched_switches(), (unsigned long long)w.idle_sleeps, (unsigned long long)w.del_during_cb, w.cb_count_A[0], w.cb_count_A[1], w.cb_count_D[0], w.cb_count_D[1]);
+  TR("waits=%llu loop returned %d; switches=%llu idle_sleeps=%llu del_during_cb=%llu A=%d/%d D=%d/%d", (unsigned long long)sim_wait_count, w.loop_ret, (unsigned long long)sched_switches(), (unsigned long long)w.idle_sleeps, (unsigned long long)w.del_during_cb, w.cb_count_A[0], w.cb_count_A[1], w.cb_count_D[0], w.cb_count_D[1]);
   CHECK(w.loop_ret == 0, "C09/loop-return", "event_base_loop returned %d", w.loop_ret);
   if (!w.use_break) for (int i = 0; i < NA; i++) CHECK(!w.want[i], "C09/activation-never-ran", "event_active(A%d) from a worker never led to a callback before loopexit completed", i);
   event_base_assert_ok_(w.base);
